@@ -12,7 +12,7 @@ from vlib import fbits, bitsf
 LEVEL_TEXT = ('Lean 4 theorems about the executable model of fourier.dft2/idft2 instantiated at ℂ/ℝ; the model is proved equal to the wiring regenerated from fourier.py on every run (centring, which offset/shift/sampling feeds which matrix factor, .T, product order, unitary factor, idft2 plumbing); for all shapes, real '
               'samplings α_r ≠ α_c, real shifts, integer offsets and both flags: the triple product equals the defining double sum '
               'with factor √|α_r α_c| exactly when unitary; linearity; zero-padded embedding = sub-array with offset; shift = input phase ramp; idft2 equals its own defining sum (any sampling, shape, shift, both flags); on a full or oversampled period (α = 1/K, K ≥ m, same flag) '
-              'idft2 ∘ dft2 = id; with integer offsets forward, an integer shift back and any real forward shift the full-period round trip is the circularly rolled input times the shift\'s phase ramp (idft2_dft2_full_period_rolled), on an oversampled period with a forward real shift the input times that ramp (idft2_dft2_oversampled_shifted); under the unitary flag dft2 and idft2 conserve Σ|·|² (roots-of-unity orthogonality); out= of dft2 in a buffer model (guard regenerated, np.dot\'s acceptance condition by hand): which buffers are written, and that a written buffer holds the values of a fresh allocation, i.e. the defining sum (dft2_out_buffer_holds_defining_sum); out= of idft2 in the same buffer model (out handed to dft2, conjugation and division in place: three flags regenerated from idft2\'s statements): the same buffers are written (idft2_out_accepted_iff) and a written buffer is the returned object and holds the values of idft2 without out=, i.e. the defining inverse sum, for both flags (idft2_out_buffer, idft2_out_buffer_holds_defining_sum). The '
+              'idft2 ∘ dft2 = id; with integer offsets forward, an integer shift back and any real forward shift the full-period round trip is the circularly rolled input times the shift\'s phase ramp (idft2_dft2_full_period_rolled), on an oversampled period with a forward real shift the input times that ramp (idft2_dft2_oversampled_shifted); under the unitary flag dft2 and idft2 conserve Σ|·|² (roots-of-unity orthogonality); out= of dft2 in a buffer model (guard regenerated, np.dot\'s acceptance condition by hand): which buffers are written, and that a written buffer holds the values of a fresh allocation, i.e. the defining sum (dft2_out_buffer_holds_defining_sum); the plain calls dft2(f, α) / idft2(F, α) — every other argument at its default, regenerated from the signatures — invert each other at α = 1/n and the forward one is the unitary centred transform (default_calls_roundtrip); out= of idft2 in the same buffer model (out handed to dft2, conjugation and division in place: three flags regenerated from idft2\'s statements): the same buffers are written (idft2_out_accepted_iff) and a written buffer is the returned object and holds the values of idft2 without out=, i.e. the defining inverse sum, for both flags (idft2_out_buffer, idft2_out_buffer_holds_defining_sum). The '
               'same model definitions are run at complex doubles against the real functions on every check.')
 LEVEL_NOTE = ('Trusted: Lean kernel + Mathlib; that np.dot/np.outer/np.exp compute the sums/products/exponentials the hand model '
               'writes (checked differentially to 1e-9 relative, not proved); floating-point rounding is not modelled. The out= '
@@ -22,7 +22,7 @@ GEN = ['FourierWiring', 'Extent', 'FieldIdx', 'FieldMerge', 'FieldDispatch']
 OPS = ['C01']
 RULE = ('cases: dft2 / idft2 with input and output shapes drawn independently from 1..7 (thorough 1..12 with a 5 % tail up to 16; forced 1x1, single row/column, '
         'even/odd, non-square), complex Gaussian data, per-axis α drawn independently from {1/n_in, 1/n_out, random in ±(0.01,0.6)}, '
-        'real shifts in [-3,3], integer offsets in [-9,9], both flags, scalar / pair / default forms of alpha, shape, shift, offset, complex / float / int64 input, with and without out= (incl. float64 / int64 buffers that must be refused with TypeError; idft2 cases carry the same buffer classes and are run through the idft2 buffer model), the call made on the caller\'s own array, full and oversampled round trips, C / Fortran / strided / read-only inputs, out= buffers of every class dft2\'s guard or np.dot(out=) distinguishes (Fortran-ordered — accepted when a single row/column —, strided, read-only, complex64, clongdouble, object, wrong shape, transposed, 1-D, complex64 of the wrong shape: the buffer model\'s outcome must be the real one; for the oracle an exception or the right values, never silently something else), full-period round trips of which half carry integer offsets forward and an integer shift back and a quarter a real forward shift too (drawn from a sub-stream seeded by the case\'s first sample), bursts of repeated shapes with fresh '
+        'real shifts in [-3,3], integer offsets in [-9,9], both flags, scalar / pair / default forms of alpha, shape, shift, offset, the unitary flag omitted on a third of the unitary calls (the model then takes the regenerated default), complex / float / int64 input, with and without out= (incl. float64 / int64 buffers that must be refused with TypeError; idft2 cases carry the same buffer classes and are run through the idft2 buffer model), the call made on the caller\'s own array, full and oversampled round trips, C / Fortran / strided / read-only inputs, out= buffers of every class dft2\'s guard or np.dot(out=) distinguishes (Fortran-ordered — accepted when a single row/column —, strided, read-only, complex64, clongdouble, object, wrong shape, transposed, 1-D, complex64 of the wrong shape: the buffer model\'s outcome must be the real one; for the oracle an exception or the right values, never silently something else), full-period round trips of which half carry integer offsets forward and an integer shift back and a quarter a real forward shift too (drawn from a sub-stream seeded by the case\'s first sample), bursts of repeated shapes with fresh '
         'offsets (coordinate cache); all-zero and single-sample input planes (complex / float / int64) written by dft2 and idft2 into a pre-filled non-zero out= buffer (12 per quick run, 200 thorough, a leading block of 60 in the search tier: the buffer must hold the zeros of a fresh allocation, not its stale contents); plus full-period round trips. distinct = (kind, shapes, α class per axis, shift/offset zero-ness, '
         'flags) signature with values; non-trivial = outside the region the test-suite samples (square α = 1/n isotropic, zero '
         'shift and offset, fresh allocation) A ≈5 % sample (search tier: a leading block of 260 + a >32-key cache-churn sequence) comes from an extremes stream: samplings within 3e-5 … one ulp of 1/n on centred same-shape transforms, in-place out=f, 1-D-like arrays of up to 1025 rows (quick ≤ 100), data at 1e-150 … 1e150, int8…uint32 inputs at their limits, shifts within 1e-9 of integers, shifts to 1e3, offsets to ±1000, samplings 1e-9 … 10; all tolerances are relative to Σ|f|.')
@@ -106,6 +106,9 @@ def _case(rng, kmax, prev=None):
     outk = ['none', 'none', 'ok', 'ok', 'float', 'fortran', 'strided', 'complex64', 'wrongshape'][int(rng.integers(0, 9))] if rng.integers(0, 2) else 'none'
     layout = ['C', 'C', 'C', 'F', 'strided', 'readonly'][int(rng.integers(0, 6))]
     outk = _refine_out(outk, shape, oshape, unitary)
+    # a third of the unitary calls omit the flag (default regenerated: Gen.fwDft2DefaultUnitary / fwIdft2DefaultUnitary); chosen by the
+    # case's shapes, not the random stream, so that existing seeds keep their cases
+    if unitary and (shape[0] + 2 * shape[1] + 3 * oshape[0] + oshape[1]) % 3 == 0: forms['unitary'] = 'default'
     return {'kind': kind, 'shape': list(shape), 'oshape': list(oshape), 're': re, 'im': im, 'alpha': [ar, ac], 'aclass': [cr, cl],
             'shift': shift, 'offset': offset, 'unitary': unitary, 'out': outk == 'ok', 'out_kind': outk, 'forms': forms, 'dtype': dtype, 'layout': layout}
 
@@ -314,6 +317,7 @@ def _kwargs(c, with_offset):
     """the call's keyword arguments in the case's argument forms (pair / scalar / default)"""
     fm = c.get('forms', {})
     kw = {'alpha': c['alpha'][0] if fm.get('alpha') == 'scalar' else tuple(c['alpha']), 'unitary': c['unitary']}
+    if fm.get('unitary') == 'default': del kw['unitary']
     if fm.get('shape') == 'scalar': kw['shape'] = c['oshape'][0]
     elif fm.get('shape') != 'none': kw['shape'] = tuple(c['oshape'])
     if fm.get('shift') == 'scalar': kw['shift'] = c['shift'][0]
@@ -423,16 +427,17 @@ def requests(c, io):
         return [{'op': 'c01.roundtrip', **base, 'period': c.get('period', c['shape']), 'shift': [fbits(s) for s in c['shift']],
                  'offset': c['offset'], 'ishift': [fbits(float(s)) for s in c.get('ishift', [0, 0])]}]
     base.update({'oshape': c['oshape'], 'shift': [fbits(s) for s in c['shift']]})
+    if c.get('forms', {}).get('unitary') == 'default': base['unitary'] = None      # the model takes the regenerated default
     if c['kind'] == 'dft2':
         rq = [{'op': 'c01.dft2', **base, 'offset': c['offset']}]
         if c.get('out_kind', 'ok' if c['out'] else 'none') in BUFFER_KINDS:
             # the out= path in the buffer model (Model/FourierOut.lean): dft2's guard, then np.dot's acceptance condition
-            rq.append({'op': 'c01.out', **base, 'offset': c['offset'], 'buf': _buf_desc(_make_buf(c))})
+            rq.append({'op': 'c01.out', **base, 'unitary': c['unitary'], 'offset': c['offset'], 'buf': _buf_desc(_make_buf(c))})
         return rq
     rq = [{'op': 'c01.idft2', **base}]
     if c.get('out_kind', 'ok' if c['out'] else 'none') in BUFFER_KINDS:
         # idft2(out=) in the buffer model (Model/FourierOut.lean idft2Out): out handed to dft2, then conj / divide in place
-        rq.append({'op': 'c01.iout', **base, 'buf': _buf_desc(_make_buf(c))})
+        rq.append({'op': 'c01.iout', **base, 'unitary': c['unitary'], 'buf': _buf_desc(_make_buf(c))})
     return rq
 
 def _tol(c):
